@@ -142,7 +142,7 @@ CLAIMED["C17"] = ("proof", "PARTIAL. The chain command line -> driver variable -
     "7 C17", "Coq proof over translated option tables + argument-loop model; figure read-back correspondence check (partial)")
 CLAIMED["C16"] = ("proof", "PARTIAL. Hand-written executable models (coq/Model/Diagrams.v, any NumOps instance) of the defining statistics of "
     "-hist, -sort, obsfcst (lines and shaded bands), qq, scatter points, change, cond, reliability, discrimination, roc, pithist, "
-    "spreadskill and timeseries, built on the GENERATED interval code (Gen_interval.v). Theorems (XR, all strictly increasing edges, all "
+    "spreadskill, freq, marginal, error, taylor, performance and timeseries, built on the GENERATED interval and contingency code. Theorems (XR, all strictly increasing edges, all "
     "values): the np.histogram rule (last bin closed; pithist, reliability, discrimination) and the change rule (first bin closed) put "
     "every value of the closed edge range in exactly one bin; plain half-open bins partition [first,last) and lose the top edge, "
     "(e_i,e_i+1] bins partition (first,last] and lose the bottom edge (the rules the code had before three fix: commits); the obsfcst "
@@ -150,8 +150,8 @@ CLAIMED["C16"] = ("proof", "PARTIAL. Hand-written executable models (coq/Model/D
     "run executes verif.driver.run on generated 2-3 input files with independent missing cells, reads Line2D data, bar heights and "
     "polygons back from the figure handed to savefig and compares them with the model (vm_compute, float instance) on the arrays the real "
     "Data object returns; one series per input in command-line order is checked; standard line plots are compared with the -type csv "
-    "table of the same command (C12). NOT modelled: droc, performance, taylor, error, murphy, economicvalue, bsdecomp, igncontrib, fss, "
-    "autocorr/autocov, against, freq, marginal, invreliability, meteo, maps, rank/impact views, scatter quantile lines.",
+    "table of the same command (C12), with -acc against the running sum. NOT modelled: droc, murphy, economicvalue, bsdecomp, igncontrib, fss, "
+    "autocorr/autocov, against, invreliability, meteo, maps, rank/impact views, scatter quantile lines.",
     "7 C16", "Coq proof over hand-written diagram models + figure read-back correspondence check (partial)")
 PENDING = {}
 
